@@ -281,6 +281,9 @@ def check_adaptive(case, ctx: Ctx):
     else:
         total = ctx.call("adaptive sum", run)
     ctx.label("all_adaptive" if all_adaptive else "mixed_adaptive", f"d{d}")
+    want_dt = functools.reduce(np.promote_types, [hs[i].dtype for i in order])
+    require(total.dtype == want_dt == np.asarray(total.frequencies).dtype == np.asarray(total.errors2).dtype, "dtype",
+            f"adaptive sum: {total.dtype}/{np.asarray(total.frequencies).dtype} vs promote({[str(hs[i].dtype) for i in order]}) = {want_dt}")
     axes_pairs = [model.pairs_of(b) for b in (total.bins if d > 1 else [total.bins])]
     m = compare_with_model(ctx, total, axes_pairs, [False] * d, sets, d, "adaptive sum")
     if d == 1:
